@@ -127,6 +127,19 @@ T: Dict[str, Tuple[dict, dict, str]] = {
     "chained_compare_loop": ({"xs": "list"}, {"out": "list"},
                              "out = []\nfor x in xs:\n    if {p} <= x <= 3:\n        out.append(x)\n        out.append(x * 2)\n        out.append(x * 3)\n"),
     "or_filter_range": ({}, {"out": "list"}, "out = [x for x in range(10) if x < {p} or x > 7]\n"),
+    # a `while True` whose only way out is a break in the else clause of an inner loop
+    "inner_else_break": ({"xs": "list"}, {"out": "list"},
+                         "def drain(queue):\n    seen = []\n    while True:\n        for item in queue:\n            if item > {p} + 1:\n                break\n"
+                         "            seen.append(item)\n        else:\n            break\n        queue = [q - 1 for q in queue]\n    seen.append(-1)\n    return seen\n"
+                         "out = drain([abs(v) % 7 for v in xs])\n"),
+    # a variable that only the test of the loop reads
+    "while_flag_only_in_test": ({"n": "int"}, {"acc": "int"},
+                                "x = abs(n) + 1\ndone = False\nwhile not done:\n    x = x * 3\n    done = x > 15 + {p}\nacc = x\n"),
+    # a later loop binds the same variable again and reads the old value in its iterable
+    "loop_variable_reused_in_iterable": ({}, {"out": "list"},
+                                         "sq = []\nfor i in range(3 + {p}):\n    sq.append(i * i)\nfor i in range(i):\n    sq.append(-i)\nout = sq\n"),
+    "strict_and_nonstrict_bound": ({}, {"out": "list", "acc": "int"},
+                                   "out = [v for v in range(6) if v < {p} and v <= {p}]\nacc = sum(1 for v in range(6) if v < {p} + 2 or v <= {p} + 2)\n"),
     "with_nullcontext": ({"n": "int"}, {"acc": "int"}, "import contextlib\nwith contextlib.nullcontext(n + {p}) as got:\n    acc = got\n"),
 }
 
